@@ -59,10 +59,19 @@ func tagNameOf(format string) string {
 	return format
 }
 
-// keyFor is the document key of a field in one format: the format's own tag if
-// present, else the dials tag.
+// tagName is the name part of a struct tag value ("addr,omitempty" -> "addr").
+func tagName(v string) string {
+	if i := strings.IndexByte(v, ','); i >= 0 {
+		return v[:i]
+	}
+	return v
+}
+
+// keyFor is the document key of a field in one format: the name in the
+// format's own tag if present (options such as omitempty or flow do not
+// matter), else the dials tag.
 func keyFor(sf reflect.StructField, format string) string {
-	if v := sf.Tag.Get(tagNameOf(format)); v != "" {
+	if v := tagName(sf.Tag.Get(tagNameOf(format))); v != "" {
 		return v
 	}
 	return sf.Tag.Get("dials")
@@ -90,13 +99,18 @@ func present(l shape.Layer, p string) bool {
 }
 
 // buildDoc builds the document tree of one format for the keys present in l.
-func buildDoc(T reflect.Type, l shape.Layer, format string, setsAsLists bool, pk pick) *dnode {
+//
+// decoy maps paths of leaves that are NOT in l to value seeds: where the field
+// has a name of its own in this format, the document also carries the field's
+// dials name as a key (with that value).  No field answers to that key in this
+// format, so the leaf stays unset.
+func buildDoc(T reflect.Type, l shape.Layer, decoy map[string]uint64, format string, setsAsLists bool, pk pick) *dnode {
 	root := &dnode{kind: 'm', isStruct: true}
-	buildStruct(root, T, nil, l, format, setsAsLists, pk)
+	buildStruct(root, T, nil, l, decoy, format, setsAsLists, pk)
 	return root
 }
 
-func buildStruct(n *dnode, t reflect.Type, prefix []string, l shape.Layer, format string, setsAsLists bool, pk pick) {
+func buildStruct(n *dnode, t reflect.Type, prefix []string, l shape.Layer, decoy map[string]uint64, format string, setsAsLists bool, pk pick) {
 	for i := 0; i < t.NumField(); i++ {
 		sf := t.Field(i)
 		names := append(append([]string{}, prefix...), sf.Name)
@@ -105,6 +119,11 @@ func buildStruct(n *dnode, t reflect.Type, prefix []string, l shape.Layer, forma
 		case shape.ClassLeaf:
 			seed := l.Set[path]
 			if seed == 0 {
+				if ds := decoy[path]; ds != 0 && keyFor(sf, format) != sf.Tag.Get("dials") {
+					k := valueNode(shape.MakeValue(sf.Type, ds, shape.ValueOpts{Plain: true}), format, setsAsLists, pk)
+					k.key = sf.Tag.Get("dials") // path stays empty: not a value of the config
+					n.kids = append(n.kids, k)
+				}
 				continue
 			}
 			v := shape.MakeValue(sf.Type, seed, shape.ValueOpts{Plain: true})
@@ -120,7 +139,7 @@ func buildStruct(n *dnode, t reflect.Type, prefix []string, l shape.Layer, forma
 				st = st.Elem()
 			}
 			k := &dnode{kind: 'm', isStruct: true, key: keyFor(sf, format), path: path, typ: sf.Type}
-			buildStruct(k, st, names, l, format, setsAsLists, pk)
+			buildStruct(k, st, names, l, decoy, format, setsAsLists, pk)
 			n.kids = append(n.kids, k)
 		}
 	}
